@@ -61,6 +61,25 @@ fn models(tier: Tier) -> Vec<(usize, Model)> {
             v.extend(gen::m7(1).into_iter().step_by(2).map(|m| (1, m)));
         }
     }
+    // arithmetic over factors of both signs whose sign is only decided during search (the sign
+    // premises of multiplication / division / absolute-value reasons)
+    {
+        let w = View::id;
+        let iv = VarDecl::interval;
+        let sign_models: Vec<(Vec<VarDecl>, Con)> = vec![
+            (vec![iv(-3, 1), iv(-5, 1), iv(4, 6)], Con::Times(w(0), w(1), w(2))),
+            (vec![iv(-2, 2), iv(-2, 2), iv(1, 4)], Con::Times(w(0), w(1), w(2))),
+            (vec![iv(-2, 2), iv(-3, 1), iv(-4, -1)], Con::Times(w(0), w(1), w(2))),
+            (vec![iv(-1, 3), iv(-2, 2), iv(-3, 3)], Con::Times(w(0), View::new(1, -1, 0), w(2))),
+            (vec![iv(-4, 4), VarDecl::from_values(&[-2, -1, 1, 2]), iv(-2, 2)], Con::Div(w(0), w(1), w(2))),
+            (vec![iv(-4, 4), VarDecl::from_values(&[-2, 1, 3]), iv(1, 2)], Con::Div(w(0), w(1), w(2))),
+            (vec![iv(-3, 3), iv(0, 3)], Con::Abs(w(0), w(1))),
+            (vec![iv(-3, 2), iv(1, 3)], Con::Abs(View::new(0, -1, 1), w(1))),
+        ];
+        for (vars, c) in sign_models {
+            v.push((0, Model::new(vars, vec![c])));
+        }
+    }
     // cumulative: 3-task sets under all 144 variants
     let sets: Vec<c08::TaskSet> = c08::task_sets(tier)
         .into_iter()
